@@ -34,7 +34,8 @@ Lemma try_tail_tie pb ps ds out i fuel : (length ds <= fuel)%nat ->
    )) = of_out (Convert.U_try_tail pb ps ds out i).
 Proof.
   intros Hf. unfold Convert.U_try_tail, p_is_neg. destruct (ps && (sd pb out <? 0)); [reflexivity|].
-  rewrite of_out_obind. apply pad_loop_tie; lia.
+  rewrite of_out_obind. etransitivity; [apply (pad_loop_tie _ _ ds _ (length ds)); lia|].
+  apply bind_ext. intros [|]; reflexivity.
 Qed.
 
 Lemma conv_try_from_buint dbg w lg n pb ps ds : 0 <= lg -> w = 2 ^ lg -> length ds = n ->
@@ -51,6 +52,91 @@ Proof.
   - change (match ?o with Ret r => Done r | Panic => Panicked end) with (of_out o).
     rewrite of_out_obind.
     etransitivity.
-    + eapply (try_or_loop_tie (R := Convert.result Z) dbg w lg pb ds _ _ Hlg Hw (length ds) fuel 0%nat 0); lia.
+    + eapply (try_loop_tie (R := Convert.result Z) dbg w lg pb (fun d => d) u_or ds _ _ Hlg Hw (length ds) fuel 0%nat 0); lia.
     + apply bind_ext. intros [out i]. cbn [fst snd]. apply try_tail_tie. lia.
+Qed.
+
+(* ---- int_try_from_bint!: `impl TryFrom<$BInt<N>> for $int`, $int = i8 .. i128, isize (the instantiation list is checked: signed
+   types only, so ps = true) ---- *)
+
+(* after `out` and `i` are set: `while i < N { if digits[i] != padding { return Err } .. } if out.is_negative() != neg { return Err } Ok(out)` *)
+Lemma i_try_tail_tie pb ds neg padding out i fuel : (length ds <= fuel)%nat ->
+  (t4' <- while_loop (R := (Convert.result Z)) fuel
+     (fun i => (i <? Z.of_nat (length ds)))
+     (fun i =>
+       t3' <- arr_get ds i ;;
+       if (negb (t3' =? padding)) then (
+         Done (Return Convert.Err)
+       ) else (
+         let i := (i + 1) in
+         Done (Continue i)
+       ))
+     (Z.of_nat i) ;;
+   match t4' with
+   | Exited i =>
+       if (xorb (p_is_neg pb true out) neg) then (
+         Done Convert.Err
+       ) else (
+         Done (Convert.Ok (Cast.p_of_bits pb true out))
+       )
+   | Returned t5' => Done t5'
+   end) = of_out (Convert.I_try_tail pb ds neg padding out i).
+Proof.
+  intros Hf. unfold Convert.I_try_tail. rewrite of_out_obind. etransitivity; [apply (pad_loop_tie _ _ ds _ (length ds)); lia|].
+  apply bind_ext. intros [|]; cbn [negb]; [|reflexivity].
+  unfold p_is_neg. cbn [andb]. rewrite xorb_negb_eqb. destruct (negb _); reflexivity.
+Qed.
+
+Lemma conv_int_try_from_bint dbg w lg n pb ds : 0 <= lg -> w = 2 ^ lg -> 0 < pb -> length ds = n ->
+  forall fuel, (S n <= fuel)%nat ->
+  ConvGen.int_try_from_bint w (Z.of_nat n) fuel pb true ds =
+  match Convert.I_try_to_iprim dbg pb w ds with Ret r => Done r | Panic => Panicked end.
+Proof.
+  intros Hlg Hw Hpb Hn fuel Hf. subst n. unfold ConvGen.int_try_from_bint, Convert.I_try_to_iprim.
+  change (match ?o with Ret r => Done r | Panic => Panicked end) with (of_out o).
+  rewrite p_lit_0, p_lit_m1 by lia. rewrite Z.gtb_ltb.
+  destruct (is_negative w ds); cbv beta iota zeta; destruct (pb <? w).
+  - change (arr_get ds 0) with (arr_get ds (Z.of_nat 0)). rewrite of_out_obind, <- rd_as_arr_get.
+    destruct (Cast.rd ds 0) as [d0|]; [|reflexivity]. cbn [of_out bind].
+    destruct (negb (d0 =? ud w (Cast.p_of_bits pb true (ud pb d0)))); [reflexivity|].
+    change 1 with (Z.of_nat 1). apply i_try_tail_tie. lia.
+  - rewrite of_out_obind. etransitivity.
+    + eapply (try_loop_tie (R := Convert.result Z) dbg w lg pb (u_not w) (fun out t => u_and out (u_not pb t)) ds _ _ Hlg Hw
+                (length ds) fuel 0%nat (u_not pb 0)); lia.
+    + apply bind_ext. intros [out i]. cbn [fst snd]. apply i_try_tail_tie. lia.
+  - change (arr_get ds 0) with (arr_get ds (Z.of_nat 0)). rewrite of_out_obind, <- rd_as_arr_get.
+    destruct (Cast.rd ds 0) as [d0|]; [|reflexivity]. cbn [of_out bind].
+    destruct (negb (d0 =? ud w (Cast.p_of_bits pb true (ud pb d0)))); [reflexivity|].
+    change 1 with (Z.of_nat 1). apply i_try_tail_tie. lia.
+  - rewrite of_out_obind. etransitivity.
+    + eapply (try_loop_tie (R := Convert.result Z) dbg w lg pb (fun d => d) u_or ds _ _ Hlg Hw (length ds) fuel 0%nat 0); lia.
+    + apply bind_ext. intros [out i]. cbn [fst snd]. apply i_try_tail_tie. lia.
+Qed.
+
+(* ---- uint_try_from_bint!: `impl TryFrom<$BInt<N>> for $uint`, $uint = u8 .. u128, usize (checked: unsigned types only, ps = false):
+   a negative source is an error, otherwise try_from_buint! on the same digits ---- *)
+Lemma conv_uint_try_from_bint dbg w lg n pb ds : 0 <= lg -> w = 2 ^ lg -> length ds = n ->
+  forall fuel, (S n <= fuel)%nat ->
+  ConvGen.uint_try_from_bint w (Z.of_nat n) fuel pb false ds =
+  match Convert.I_try_to_uprim dbg pb w ds with Ret r => Done r | Panic => Panicked end.
+Proof.
+  intros Hlg Hw Hn fuel Hf. unfold ConvGen.uint_try_from_bint, Convert.I_try_to_uprim.
+  destruct (is_negative w ds); [reflexivity|].
+  rewrite bind_done_r. apply (conv_try_from_buint dbg w lg); assumption.
+Qed.
+
+(* ---- all obligations of the group in one statement ---- *)
+Theorem conv_C13_match_model dbg w lg : 0 <= lg -> w = 2 ^ lg ->
+  forall n pb ds fuel, 0 < pb -> length ds = n -> (S n <= fuel)%nat ->
+  (forall ps, ConvGen.try_from_buint w (Z.of_nat n) fuel pb ps ds =
+     match Convert.U_try_to_prim dbg pb ps w ds with Ret r => Done r | Panic => Panicked end) /\
+  ConvGen.int_try_from_bint w (Z.of_nat n) fuel pb true ds =
+    match Convert.I_try_to_iprim dbg pb w ds with Ret r => Done r | Panic => Panicked end /\
+  ConvGen.uint_try_from_bint w (Z.of_nat n) fuel pb false ds =
+    match Convert.I_try_to_uprim dbg pb w ds with Ret r => Done r | Panic => Panicked end.
+Proof.
+  intros Hlg Hw n pb ds fuel Hpb Hn Hf. split; [|split].
+  - intros ps. apply (conv_try_from_buint dbg w lg); assumption.
+  - apply (conv_int_try_from_bint dbg w lg); assumption.
+  - apply (conv_uint_try_from_bint dbg w lg); assumption.
 Qed.
